@@ -18,6 +18,62 @@ fn parts(x: &DateTime) -> String {
     format!("dp={} tp={}", dp, x.timepart())
 }
 
+/// Gregorian calendar rule, written here from the rule itself (the oracle's own; neither the crate's nor `time`'s).
+fn own_dim(y: i64, m: u64) -> u64 {
+    match m {
+        1 | 3 | 5 | 7 | 8 | 10 | 12 => 31,
+        4 | 6 | 9 | 11 => 30,
+        2 => if (y % 4 == 0 && y % 100 != 0) || y % 400 == 0 { 29 } else { 28 },
+        _ => 0,
+    }
+}
+
+/// Arithmetic reading of the two DOS words: (year, month, day, hour, minute, second).
+fn own_unpack(d: u64, t: u64) -> [u64; 6] {
+    [1980 + d / 512, d / 32 % 16, d % 32, t / 2048, t / 32 % 64, 2 * (t % 32)]
+}
+
+fn own_valid(f: &[u64; 6]) -> bool {
+    f[2] >= 1 && f[2] <= own_dim(f[0] as i64, f[1]) && f[3] <= 23 && f[4] <= 59 && f[5] <= 59
+}
+
+fn mix(h: u64, v: u64) -> u64 { (h ^ v).wrapping_mul(0x100000001b3) }
+
+/// What `dos.unpack` + `dos.totime` observe for one pair of words, folded into the digest (implementation).
+fn digest_one(mut h: u64, d: u16, t: u16) -> u64 {
+    let x = DateTime::from_msdos(d, t);
+    let dp = catch(move || x.datepart()).map(|v| v as u64).unwrap_or(0xFFFF_FFFF);
+    for v in [x.year() as u64, x.month() as u64, x.day() as u64, x.hour() as u64, x.minute() as u64, x.second() as u64, dp, x.timepart() as u64] {
+        h = mix(h, v);
+    }
+    match x.to_time() {
+        Err(_) => mix(h, 0),
+        Ok(o) => {
+            for v in [1u64, o.year() as u64, o.month() as u8 as u64, o.day() as u64, o.hour() as u64, o.minute() as u64, o.second() as u64] { h = mix(h, v); }
+            h
+        }
+    }
+}
+
+/// The same digest from the arithmetic layout and the oracle's own calendar.
+fn digest_own(mut h: u64, d: u64, t: u64) -> u64 {
+    let f = own_unpack(d, t);
+    for v in f.iter().copied().chain([d, t]) { h = mix(h, v); }
+    if own_valid(&f) { for v in std::iter::once(1u64).chain(f.iter().copied()) { h = mix(h, v); } h } else { mix(h, 0) }
+}
+
+fn pack_t(h: u64, m: u64, s2: u64) -> u64 { h << 11 | m << 5 | s2 }
+fn pack_d(y: u64, m: u64, d: u64) -> u64 { (y - 1980) << 9 | m << 5 | d }
+
+/// Covering sets for the per-factor exhaustive sweep: valid and invalid partners.
+fn cover_times() -> Vec<u64> {
+    vec![pack_t(0, 0, 0), pack_t(23, 59, 29), pack_t(12, 30, 15), pack_t(24, 0, 0), pack_t(23, 60, 0), pack_t(23, 59, 30), pack_t(31, 63, 31)]
+}
+fn cover_dates() -> Vec<u64> {
+    vec![pack_d(1980, 1, 1), pack_d(2107, 12, 31), pack_d(2024, 2, 29), pack_d(2000, 2, 29), pack_d(2023, 2, 29), pack_d(2100, 2, 29),
+         pack_d(1980, 0, 0), pack_d(2107, 15, 31), pack_d(2021, 4, 31)]
+}
+
 const BOUND16: [u64; 14] = [0, 1, 2, 31, 32, 33, 511, 512, 0x7fff, 0x8000, 0xfffe, 0xffff, 0x21, 0x5a21];
 
 impl Stream for Dos {
@@ -27,11 +83,28 @@ impl Stream for Dos {
 
     fn gen(&self, seed: u64, tier: &str) -> GenOut {
         let mut g = GenOut::default();
-        g.rule = "dos.unpack: boundary words x boundary words + random 16-bit pairs; dos.ctor: every field at \
-                  its boundary neighbours (others valid) + random joint values; dos.totime: every (y,m,d) in \
-                  1980..2107 x 0..15 x 0..31 at boundary times (thorough) or sampled (quick); dos.tryfrom: every \
-                  valid calendar date 1979..2108 (thorough) or sampled, boundary times. distinct = distinct op \
+        g.rule = "dos.block (both tiers, EXHAUSTIVE PER FACTOR): all 2^16 date words x 7 covering time words (3 valid, 4 \
+                  invalid) and all 2^16 time words x 9 covering date words (4 valid incl. both leap days, 5 invalid incl. \
+                  2100-02-29, 2023-02-29, 04-31, month 0 / 15), in blocks of 8192, implementation digest = model digest = \
+                  oracle's own arithmetic digest over fields, re-packed words and the to_time verdict - exhaustive for the \
+                  2^32 pairs because the two words are handled independently (Props.C18.fromMsdos_words_independent, \
+                  parts_independent, toTime_factors); dos.dim: every (year, month 0..15) of 1975..2112 against \
+                  time::util::days_in_year_month (calendar rule = model parameter Spec.Dos.daysInMonth); dos.unpack: boundary \
+                  words x boundary words + random 16-bit pairs; dos.ctor: every field at \
+                  its boundary neighbours (others valid) + random joint values; dos.totime: every year 1980..2107 x month \
+                  1..12 x day 28..31 x (a valid time, an invalid time), months 0/13..15 and days 0/1, plus every (y,m,d) at \
+                  boundary times (thorough) or sampled (quick); dos.tryfrom: every \
+                  valid calendar date 1979..2108 (thorough) or sampled, boundary times, UTC offsets and nanoseconds. distinct = distinct op \
                   lines; non-trivial = response is not an error".into();
+        g.exhaustive = true; // dos.block: per-factor exhaustive in both tiers (see rule)
+        for (kind, fixed) in cover_times().into_iter().map(|t| ("date", t)).chain(cover_dates().into_iter().map(|d| ("time", d))) {
+            for lo in (0..65536u64).step_by(8192) {
+                g.push("block", format!("dos.block kind={kind} fixed={fixed} lo={lo} n=8192"));
+            }
+        }
+        for y in 1975..=2112i64 { for m in 0..16u64 {
+            g.push("dim", format!("dos.dim y={y} m={m}"));
+        }}
         let mut r = super::rng_for(seed, "dos", 0);
         for &d in BOUND16.iter() {
             for &t in BOUND16.iter() {
@@ -83,6 +156,18 @@ impl Stream for Dos {
             let t = times[(d % times.len() as u64) as usize];
             g.push("totime.alldates", format!("dos.totime d={d} t={t}"));
         }
+        // days 28..31 (and 0, 1) of EVERY month of EVERY year with a valid AND an invalid time: the calendar rule
+        // (days per month, leap years, the century rule at 2100) decides whether `to_time` succeeds
+        let valid_times = [pack_t(0, 0, 0), pack_t(12, 30, 15), pack_t(23, 59, 29), pack_t(6, 0, 1)];
+        let invalid_times = [pack_t(24, 0, 0), pack_t(23, 60, 0), pack_t(23, 59, 30), pack_t(31, 63, 31)];
+        for y in 1980..=2107u64 { for m in 1..=12u64 { for day in 28..=31u64 {
+            let k = (y + m + day) as usize;
+            g.push("totime.monthend", format!("dos.totime d={} t={}", pack_d(y, m, day), valid_times[k % 4]));
+            g.push("totime.monthend", format!("dos.totime d={} t={}", pack_d(y, m, day), invalid_times[k % 4]));
+        }}}
+        for y in [1980u64, 1999, 2000, 2023, 2024, 2100, 2104, 2107] { for m in [0u64, 1, 2, 12, 13, 14, 15] { for day in [0u64, 1, 27, 28, 29, 30, 31] {
+            g.push("totime.edges", format!("dos.totime d={} t={}", pack_d(y, m, day), valid_times[((y + m + day) % 4) as usize]));
+        }}}
         for &t in &times {
             for d in [0x21u64, 0x5a5d, 0x585d /*2024-02-29*/, 0x565d /*2023-02-29*/, 0xff9f] {
                 g.push("totime.boundary", format!("dos.totime d={d} t={t}"));
@@ -108,6 +193,11 @@ impl Stream for Dos {
                 }
             }
         }
+        // nanoseconds and offsets together: dropped / read in the value's own offset
+        for off in [0i64, 3600, -3600, 19800, -34200] { for ns in [0u64, 1, 500_000_000, 999_999_999] {
+            g.push("tryfrom.offset", format!("dos.tryfrom y=2020 mo=6 d=15 h=12 mi=0 s=0 off={off} ns={ns}"));
+            g.push("tryfrom.offset", format!("dos.tryfrom y=2107 mo=12 d=31 h=23 mi=59 s=59 off={off} ns={ns}"));
+        }}
         for y in [-9999i64, -1, 0, 1, 1979, 2108, 9999] {
             g.push("tryfrom.far", format!("dos.tryfrom y={y} mo=1 d=1 h=0 mi=0 s=0"));
         }
@@ -162,12 +252,19 @@ impl Stream for Dos {
                     // the conversion reads the LOCAL calendar fields of the value; `off` (seconds) chooses its UTC offset
                     let off = get_i64(&a, "off").unwrap_or(0);
                     let offset = match time::UtcOffset::from_whole_seconds(off as i32) { Ok(o) => o, Err(_) => return "invalid-cal".to_string() };
+                    let ns = get_u64(&a, "ns").unwrap_or(0);
+                    let tm = match tm.replace_nanosecond(ns as u32) { Ok(t) => t, Err(_) => return "invalid-cal".to_string() };
                     let o = time::PrimitiveDateTime::new(date, tm).assume_offset(offset);
                     match DateTime::try_from(o) {
                         Ok(x) => {
                             let back = match x.to_time() {
-                                Ok(o2) => if (o2.year(), o2.month(), o2.day(), o2.hour(), o2.minute(), o2.second()) == (o.year(), o.month(), o.day(), o.hour(), o.minute(), o.second()) { "back=same" } else { "back=diff" },
-                                Err(_) => "back=err",
+                                Ok(o2) => {
+                                    let same = (o2.year(), o2.month(), o2.day(), o2.hour(), o2.minute(), o2.second()) == (o.year(), o.month(), o.day(), o.hour(), o.minute(), o.second());
+                                    // shift: whole seconds between the two instants (the sub-second part of the argument is dropped: floor)
+                                    let shift = if same { o2.unix_timestamp() - o.unix_timestamp() } else { 0 };
+                                    format!("{} off2={} ns2={} shift={}", if same { "back=same" } else { "back=diff" }, o2.offset().whole_seconds(), o2.nanosecond(), shift)
+                                }
+                                Err(_) => "back=err".to_string(),
                             };
                             format!("ok {} {}", show(&x), back)
                         }
@@ -175,6 +272,24 @@ impl Stream for Dos {
                     }
                 });
                 r.unwrap_or_else(|_| "panic".into())
+            }
+            "dos.dim" => {
+                let (y, m) = match (get_i64(&a, "y"), n("m")) { (Some(y), Some(m)) => (y, m), _ => return "bad-op".into() };
+                catch(move || {
+                    let days = match time::Month::try_from(m as u8) { Ok(mo) => time::util::days_in_year_month(y as i32, mo) as u64, Err(_) => 0 };
+                    format!("ok {} leap={}", days, time::util::is_leap_year(y as i32) as u8)
+                }).unwrap_or_else(|_| "panic".into())
+            }
+            "dos.block" => {
+                let (fixed, lo, cnt) = match (n("fixed"), n("lo"), n("n")) { (Some(f), Some(l), Some(c)) if f < 65536 && l + c <= 65536 => (f, l, c), _ => return "bad-op".into() };
+                let by_date = match a.get("kind").map(|s| s.as_str()) { Some("date") => true, Some("time") => false, _ => return "bad-op".into() };
+                catch(move || {
+                    let mut h = 0xcbf29ce484222325u64;
+                    for w in lo..lo + cnt {
+                        h = if by_date { digest_one(h, w as u16, fixed as u16) } else { digest_one(h, fixed as u16, w as u16) };
+                    }
+                    format!("ok {h}")
+                }).unwrap_or_else(|_| "panic".into())
             }
             _ => "bad-op".into(),
         }
@@ -215,7 +330,32 @@ impl Stream for Dos {
                     }
                 }
             }
+            "dos.dim" => {
+                let (y, m) = (get_i64(&a, "y").unwrap_or(0), n("m"));
+                let want = format!("ok {} leap={}", own_dim(y, m), ((y % 4 == 0 && y % 100 != 0) || y % 400 == 0) as u8);
+                if resp != want {
+                    f.push(OracleFailure { what: format!("the time crate's calendar differs from the Gregorian rule: got `{resp}` want `{want}`") });
+                }
+            }
+            "dos.block" => {
+                let by_date = a.get("kind").map(|s| s == "date").unwrap_or(true);
+                let (fixed, lo, cnt) = (n("fixed"), n("lo"), n("n"));
+                let mut h = 0xcbf29ce484222325u64;
+                for w in lo..lo + cnt { h = if by_date { digest_own(h, w, fixed) } else { digest_own(h, fixed, w) }; }
+                if resp != format!("ok {h}") {
+                    // find the first word of the block that differs
+                    let bad = (lo..lo + cnt).find(|&w| {
+                        let (d, t) = if by_date { (w, fixed) } else { (fixed, w) };
+                        digest_one(1, d as u16, t as u16) != digest_own(1, d, t)
+                    });
+                    f.push(OracleFailure { what: format!("unpack / re-pack / to_time differ from the DOS layout + Gregorian calendar in this block (first differing word: {bad:?})") });
+                }
+            }
             "dos.totime" => {
+                let fields = own_unpack(n("d"), n("t"));
+                if own_valid(&fields) != resp.starts_with("ok") {
+                    f.push(OracleFailure { what: format!("to_time verdict differs from the calendar: {:?} is {}a valid timestamp, got `{resp}`", fields, if own_valid(&fields) { "" } else { "not " }) });
+                }
                 if resp.starts_with("ok") {
                     let x = DateTime::from_msdos(n("d") as u16, n("t") as u16);
                     if !resp.ends_with(&format!("back={}", show(&x))) {
@@ -229,8 +369,13 @@ impl Stream for Dos {
                 if resp != "invalid-cal" && inr != resp.starts_with("ok") {
                     f.push(OracleFailure { what: format!("try_from range differs from 1980..=2107: `{resp}`") });
                 }
-                if resp.starts_with("ok") && !resp.ends_with("back=same") {
-                    f.push(OracleFailure { what: format!("try_from then to_time is not the identity: `{resp}`") });
+                if resp.starts_with("ok") && !resp.contains("back=same") {
+                    f.push(OracleFailure { what: format!("try_from then to_time does not return the same wall-clock fields: `{resp}`") });
+                }
+                // same wall-clock fields, in UTC, whole second: the instant moves by exactly the argument's offset
+                let off = get_i64(&a, "off").unwrap_or(0);
+                if resp.starts_with("ok") && !resp.ends_with(&format!("off2=0 ns2=0 shift={off}")) {
+                    f.push(OracleFailure { what: format!("try_from then to_time: expected offset UTC, nanosecond 0 and a shift of {off} s: `{resp}`") });
                 }
             }
             _ => {}
